@@ -12,6 +12,9 @@ import traceback
 VERIF = os.path.dirname(os.path.dirname(os.path.abspath(__file__)))
 REPO = os.environ.get('LMM_REPO', '/repo')
 EXIT_OK, EXIT_VIOLATION, EXIT_HARNESS = 0, 1, 3
+# seed testing only (seed_test.sh): LMM_REPO points the checks at a scratch copy of the repository with a seeded change applied,
+# VERIF_OUT redirects evidence/ and replays/ so that the committed evidence always comes from runs against /repo itself.
+OUT = os.environ.get('VERIF_OUT', VERIF)
 
 
 def import_repo():
@@ -65,7 +68,7 @@ def load_findings(pid):
 
 
 def write_replay(pid, payload):
-    d = os.path.join(VERIF, 'replays')
+    d = os.path.join(OUT, 'replays')
     os.makedirs(d, exist_ok=True)
     blob = json.dumps(payload, sort_keys=True, default=str)
     h = hashlib.sha1(blob.encode()).hexdigest()[:10]
@@ -161,8 +164,8 @@ class Report:
             "violations": len(self.violations),
         }
         ev["coverage"].update(self.extra)
-        os.makedirs(os.path.join(VERIF, 'evidence'), exist_ok=True)
-        with open(os.path.join(VERIF, 'evidence', f"{self.pid}.json"), 'w') as f:
+        os.makedirs(os.path.join(OUT, 'evidence'), exist_ok=True)
+        with open(os.path.join(OUT, 'evidence', f"{self.pid}.json"), 'w') as f:
             json.dump(ev, f, indent=1, default=str)
         for k in self.known_hits:
             print(f"KNOWN-FINDING: property={self.pid} {k}")
